@@ -14,8 +14,8 @@ from vlib.core import PropertyViolation
 ID = 'C14'
 LEVEL = 'fault_enumeration'
 BUDGET = {'quick': 400, 'thorough': 1500}
-RULE = ('Hypothesis-generated base scripts: a non-decreasing sequence of clock readings (multiples of 1/8, repeats '
-        'allowed), 1-3 world handles each holding 1-4 recording processors of distinct priorities and an on_quit '
+RULE = ('Hypothesis-generated base scripts: a non-decreasing sequence of clock readings (repeats allowed; floats '
+        'that are multiples of 1/8, or integers beyond 2**53 as a nanosecond clock yields, or exact rationals), 1-3 world handles each holding 1-4 recording processors of distinct priorities and an on_quit '
         'listener, 1-3 start() calls of the same loop object (each ended by the clock raising Quit after its '
         'iteration budget), plus 0-2 generated faults. Each base script is executed as generated and then once '
         'for EVERY (iteration, processor position, action) with action in {raise Quit, quit_loop(world), '
@@ -29,7 +29,8 @@ RULE = ('Hypothesis-generated base scripts: a non-decreasing sequence of clock r
         '= runs incl. fault positions. Non-trivial = a base script with >= 3 iterations and >= 2 distinct '
         'positive deltas and >= 2 processors in some world, or a restart. Distinct = sha1 of canonical JSON.')
 ASSUMPTIONS = [
-    'clock readings are multiples of 1/8 below 2**10: differences are exact in binary floating point',
+    'float clock readings are multiples of 1/8 below 2**10 (exact differences); integer and Fraction readings '
+    'are compared exactly: the loop must not convert them',
     'quit_loop is given the current world or nothing (a left, disabled world would legitimately postpone '
     'on_quit)',
     'clear flags only through raise SwitchWorld (their event semantics are C13\'s subject)',
@@ -54,6 +55,9 @@ def strategy():
         'segments': st.lists(st.integers(1, 5), min_size=1, max_size=3),
         'gaps': st.lists(st.integers(0, 16).map(lambda k: k / 8), min_size=15, max_size=15),
         'start': st.integers(0, 80).map(lambda k: k / 8),
+        # what the time function returns: 0 floats (multiples of 1/8), 1 integers beyond 2**53 (nanosecond
+        # clocks), 2 exact rationals - the deltas are the exact differences in each case
+        'clock': st.integers(0, 2),
         'faults': st.lists(st.integers(0, 16 * 4 * 8 * 3 - 1).map(decode_fault), max_size=2)})
 
 
@@ -99,9 +103,19 @@ class Execution:
         self.faults = {(f[0], f[1]): f for f in faults}
         self.fault_list = faults
         self.readings = []
-        t = case['start']
+        kind = case.get('clock', 0)
+        if kind == 1:
+            conv = lambda x: int(x * 8)
+            t = 2 ** 53 + conv(case['start'])
+        elif kind == 2:
+            from fractions import Fraction
+            conv = lambda x: Fraction(int(x * 8), 3)
+            t = conv(case['start'])
+        else:
+            conv = lambda x: x
+            t = case['start']
         for g in case['gaps']:
-            t += g
+            t += conv(g)
             self.readings.append(t)
         self.g = -1                 # global iteration index
         self.iter_in_segment = 0
